@@ -176,6 +176,36 @@ func (p *Program) UnlistedUsers(users []string, allowed map[string]bool) []strin
 	return bad
 }
 
+// CallScan lists the /repo functions that mention function `calleeKey` at all: a direct call, a deferred or spawned
+// call, or a use as a value. It is the package-wide check behind `at call` assertions: they constrain the arguments of
+// the calls inside functions under contract, so no other function may call it.
+func (p *Program) CallScan(calleeKey string) []string {
+	found := map[string]bool{}
+	for f := range ssautil.AllFunctions(p.Prog) {
+		if !p.InRepo(f) || f.Blocks == nil {
+			continue
+		}
+		for _, b := range f.Blocks {
+			for _, ins := range b.Instrs {
+				for _, op := range ins.Operands(nil) {
+					if op == nil || *op == nil {
+						continue
+					}
+					if g, isFn := (*op).(*ssa.Function); isFn && FuncKey(g) == calleeKey {
+						found[FuncKey(f)] = true
+					}
+				}
+			}
+		}
+	}
+	var out []string
+	for k := range found {
+		out = append(out, k)
+	}
+	sort.Strings(out)
+	return out
+}
+
 // GlobalStores lists the /repo functions other than package initialisers that store to a package-level variable.
 func (p *Program) GlobalStores() map[string][]string {
 	out := map[string][]string{}
